@@ -6,3 +6,4 @@ CONSTANTS
   MaxSteps = 8
   MaxDepth = 2
   EmitAll = TRUE
+  CrossRemark = TRUE
